@@ -242,3 +242,150 @@ def shuffled(rng, xs):
     xs = list(xs)
     rng.shuffle(xs)
     return xs
+
+
+# ---------------------------------------------------------------------------------------------
+# searches (C07 family) and universes (C08-C12 families)
+
+NAMES = ["ophelia", "a", "a-b", "a.b", "a+b", "b", "yorick", "x_y", "main", "cam", "A"]
+
+
+class SearchGen:
+    def __init__(self, v):
+        self.v = v
+        self.rng = v.rng
+
+    def comma_list(self, key, r, current):
+        rng = self.rng
+        v = self.v
+        pool = [w for w in (v.closed.get(key) or NAMES)]
+        alts = rng.sample(pool, min(len(pool), rng.randint(1, 3)))
+        if current not in alts and rng.random() < 0.6:
+            alts.append(current)
+        rng.shuffle(alts)
+        x = rng.random()
+        if x < 0.15:
+            alts.append(alts[0])           # duplicate
+        elif x < 0.25:
+            alts.insert(rng.randrange(len(alts) + 1), "")   # empty alternative
+        sep = ", " if rng.random() < 0.2 else ","
+        return sep.join(alts)
+
+    def search(self, base=None, allow_gt=False, malformed=0.08):
+        """a search string of the C07 family built from a valid sid"""
+        rng = self.rng
+        v = self.v
+        if rng.random() < malformed:
+            return rng.choice(["hamlet/**/**", "hamlet/***", "hamlet/**x", "hamlet/a/", "junk/**", "junk?a=b", "/**",
+                               "hamlet/a/**/ma/**", "x:y:z", "hamlet/*/*?type=s", "**", "*", "hamlet/a/char/**?ext=ma",
+                               "hamlet/**/maya", "hamlet/s/**/cache", "hamlet/a/*/*/**/>/*/maya", ",", "hamlet/a,s",
+                               "hamlet/a/char/x/model/v001/w/ma?", "hamlet?type=a", "?project=hamlet", "hamlet/a/**?"])
+        if base is None:
+            label = rng.choice(v.labels)
+            fields = [(k, v.value((k, r), concrete_only=True)) for k, r in v.tdict[label]]
+        else:
+            label, fields = base
+        keyres = dict(v.tdict[label])
+        segs = [val for _, val in fields]
+        keys = [k for k, _ in fields]
+        n = len(segs)
+        # replace a subset of segments
+        for i in range(n):
+            x = rng.random()
+            if x < 0.22:
+                segs[i] = "*"
+            elif x < 0.26 and allow_gt:
+                segs[i] = ">"
+            elif x < 0.34:
+                segs[i] = self.comma_list(keys[i], keyres[keys[i]], segs[i])
+        if v.aliases and keys[-1] == v.leaf_keys.get(label.split(v.sep)[0]) and rng.random() < 0.3:
+            segs[-1] = rng.choice(list(v.aliases.keys()))
+        # collapse a contiguous span into '**'
+        if rng.random() < 0.3 and n >= 2:
+            i = rng.randrange(1, n)
+            j = rng.randrange(i, n + 1)
+            segs = segs[:i] + ["**"] + segs[j:]
+        s = "/".join(segs)
+        # filters
+        nf = rng.choice([0, 0, 0, 1, 1, 2])
+        if nf:
+            pairs = []
+            for _ in range(nf):
+                x = rng.random()
+                if x < 0.5:
+                    k = rng.choice(keys)
+                elif x < 0.8:
+                    bt = label.split(v.sep)[0]
+                    deeper = [kk for l, ks in v.templates if l.split(v.sep)[0] == bt for kk, _ in ks]
+                    k = rng.choice(deeper)
+                else:
+                    k = rng.choice(v.all_keys + ["foo"])
+                y = rng.random()
+                pool = v.closed.get(k) or NAMES
+                if y < 0.5:
+                    val = rng.choice(pool)
+                elif y < 0.65:
+                    val = ",".join(rng.sample(pool, min(len(pool), 2)))
+                elif y < 0.75 and v.aliases:
+                    val = rng.choice(list(v.aliases.keys()))
+                elif y < 0.85:
+                    val = "*"
+                else:
+                    val = rng.choice(["zzz", "", "v1", ">"]) if allow_gt else rng.choice(["zzz", "", "v1"])
+                if rng.random() < 0.2:
+                    val = "~" + val
+                pairs.append("%s=%s" % (k, val))
+            s += "?" + "&".join(pairs)
+        return s
+
+
+def universe(v, nleaf=None, with_junk=True):
+    """a list of sid strings: a few leaf entities sharing prefixes, their ancestors, plus near-miss /
+    untyped entries"""
+    rng = v.rng
+    nleaf = nleaf or rng.randint(2, 7)
+    leaf_labels = [l for l, ks in v.templates if ks and ks[-1][0] == v.leaf_keys.get(l.split(v.sep)[0])]
+    base = None
+    leaves = []
+    for _ in range(nleaf):
+        if base is not None and rng.random() < 0.7:
+            label, fields = base
+            fields = list(fields)
+            # vary one or two fields
+            for _ in range(rng.randint(1, 2)):
+                i = rng.randrange(2, len(fields))
+                k = fields[i][0]
+                r = dict(v.tdict[label])[k]
+                if re_is_free(r):
+                    fields[i] = (k, rng.choice(NAMES))
+                else:
+                    fields[i] = (k, v.value((k, r), concrete_only=True))
+        else:
+            label = rng.choice(leaf_labels)
+            fields = [(k, (rng.choice(NAMES) if re_is_free(r) else v.value((k, r), concrete_only=True))) for k, r in v.tdict[label]]
+            base = (label, fields)
+        leaves.append((label, fields))
+    strings = []
+    x = rng.random()
+    for label, fields in leaves:
+        vals = [val for _, val in fields]
+        if x < 0.6:   # complete hierarchy
+            for i in range(1, len(vals) + 1):
+                strings.append("/".join(vals[:i]))
+        else:         # leaf only
+            strings.append("/".join(vals))
+    out = []
+    for s in strings:
+        if s not in out:
+            out.append(s)
+    if with_junk and rng.random() < 0.5:
+        for _ in range(rng.randint(1, 4)):
+            y = rng.random()
+            if y < 0.4:
+                out.insert(rng.randrange(len(out) + 1), v.near_miss(rng.choice(out)))
+            elif y < 0.7:
+                out.insert(rng.randrange(len(out) + 1), v.c01_string().split("?")[0])
+            else:
+                out.insert(rng.randrange(len(out) + 1), rng.choice(out))   # duplicate entry
+    rng.shuffle(out) if rng.random() < 0.3 else None
+    return out, leaves
